@@ -21,9 +21,9 @@ BatchNotations  == {"batch_add", "batch_call", "batch_proxy", "batch_getitem"}
 Nothing == [k |-> "nothing", vals |-> <<>>, err |-> "na"]
 
 \* what the function body receives: positional and named passing of the same values are the same call
-Received(c) == IF c.args = "none" THEN "none" ELSE "ab"
+Received(c) == CASE c.args = "none" -> "none" [] c.args = "posdict" -> "dict" [] OTHER -> "ab"
 \* what a DIRECT invocation of the registered function gives
-ValueOf(c) == IF c.args = "none" THEN "v_none" ELSE "v_ab"
+ValueOf(c) == CASE c.args = "none" -> "v_none" [] c.args = "posdict" -> "v_dict" [] OTHER -> "v_ab"     \* posdict: ONE positional argument that is a dict
 ErrOf(c) == CASE c.beh = "typed" -> "typed_2001"       \* registered class, code 2001, message, data
               [] c.beh = "typednull" -> "typed_2001_null"   \* the same with data null (null is not absent)
               [] c.beh = "unreg" -> "base_777"         \* no class registered for 777: the client's base class
